@@ -24,6 +24,7 @@ SAVE_REDIR.update({
     "github.com/sourcenetwork/defradb/internal/core/block.putBlock": "vPutBlockEnv",
     "github.com/sourcenetwork/defradb/internal/core/block.GetFromBytes": "vGetFromBytes",
     "(github.com/sourcenetwork/defradb/client.FieldValue).Bytes": "vFieldValueBytes",
+    "(*github.com/sourcenetwork/defradb/internal/db.collection).updateIndexedDoc": "sUpdateIndexedDocNoIndexes",
 })
 SAVE_OVR = dict(_c02.OVR)
 SAVE_OVR["github.com/sourcenetwork/defradb/internal/core/block.BlockSchema"] = "opaque"
